@@ -163,9 +163,9 @@ class Gates:
                 self._wait(lambda ci=ci: self.state[ci] in ("parked", "done"), f"client {ci} to reach its next gate or finish")
                 if self.state[ci] == "done" and queued:
                     q = queued[0]
+                    self.trace.append(f"admit{q}")  # logged even if q already got its slot while we were waking up
                     if self.state[q] == "queued":
                         self.expect_new = q if q not in self.thread_of.values() else None
-                        self.trace.append(f"admit{q}")
                         self._wait(lambda q=q: self.state[q] in ("parked", "done"), f"queued client {q} to be admitted after client {ci} closed")
 
     def abort(self) -> None:
